@@ -18,7 +18,7 @@ LEVEL_NOTE = ("Trusted: Lean kernel + 3 standard axioms; hand-written model Lex/
               "run; CPython re semantics. Token level (resync) and text level (lexer_boundary, resync_text), on the blocks "
               "handed to Library.add; key collisions between the parts are C09's business (generator keeps keys distinct).")
 TECHNIQUE = "Lean 4 proof: output monotonicity + reset-at-mark lemma + C02 scanner lemmas; differential correspondence on triples"
-RULE = ("triples (D1 from G ending in a complete block, X, D2 from G starting with '@type{' at a line start): X = every token "
+RULE = ("size-scaled malformed middles (nesting 1500..6000 deep, closed and unclosed, in comments, strings, preambles and values; thousands of stray delimiters); triples (D1 from G ending in a complete block, X, D2 from G starting with '@type{' at a line start): X = every token "
         "string of <= k tokens over { } \" , = NL \\ @a a SP (k=3 quick, 4 thorough) behind truncated-block prefixes, plus "
         "random truncations/corruptions of valid blocks. Compared: model vs real splitter on D1+X+D2 (complete blocks). "
         "Non-trivial = X non-empty and at least 2 blocks returned.")
@@ -67,6 +67,14 @@ def gen(tier, rng):
         for pre in XPRE:
             x = pre + body
             yield {"d1": D1S[(len(x) + len(pre)) % len(D1S)], "x": x, "d2": D2S[len(body) % len(D2S)]}
+    # malformed middles of a SIZE that matters: very deep unclosed / closed nesting, very long truncated values,
+    # thousands of stray delimiters (recursion limits, quadratic scans)
+    for depth in ((1500, 6000) if tier == "quick" else (1500, 6000, 30000)):
+        for x in ("@comment{" + "{" * depth, "@comment{" + "{" * depth + "}" * depth + "}", "@string{s = " + "{" * depth,
+                  "@preamble{" + "{" * depth + "x" + "}" * (depth - 1), "@a{k, f = " + "{" * depth,
+                  '@a{k, f = "' + "{" * depth, "@a{k, f = {" + "v\n" * depth, "}" * depth, ",=\"" * depth, "@a{k" * depth):
+            for j in range(2):
+                yield {"d1": D1S[j % len(D1S)], "x": x, "d2": D2S[(j + depth) % len(D2S)]}
     n = 3000 if tier == "quick" else 30000
     made = 0
     while made < n:
